@@ -966,7 +966,9 @@ def solve_sylvester_diagonal(
             array_eigs_b = np.array(eigs_B, dtype=object)
             energy_denominators = sympy.Matrix(
                 np.broadcast_to(
-                    1 / (array_eigs_a.reshape(-1, 1) - array_eigs_b), Y.shape
+                    # sympy numbers, so that a vanishing difference gives zoo
+                    1 / ((array_eigs_a.reshape(-1, 1) - array_eigs_b) * sympy.S.One),
+                    Y.shape,
                 )
             ).subs(sympy.zoo, sympy.S.Zero)  # Take care of diagonal elements
             return energy_denominators.multiply_elementwise(Y)
